@@ -221,6 +221,13 @@ func (eval Evaluator) gadgetProductSinglePAndBitDecompLazy(levelQ int, cx ring.P
 
 	c2QP := eval.BuffDecompQP[0]
 
+	// Number of moduli per RNS digit: without auxiliary modulus (levelP = -1)
+	// each digit is one Qi (and not zero of them).
+	nbPi := levelP + 1
+	if nbPi < 1 {
+		nbPi = 1
+	}
+
 	// Re-encryption with CRT decomposition for the Qi
 	var reduce int
 	for i := 0; i < BaseRNSDecompositionVectorSize; i++ {
@@ -230,7 +237,7 @@ func (eval Evaluator) gadgetProductSinglePAndBitDecompLazy(levelQ int, cx ring.P
 		// the power of two decomposition is applied on top
 		// of the RNS decomposition
 		if mask == 0 {
-			eval.Decomposer.DecomposeAndSplit(levelQ, levelP, levelP+1, i, cxInvNTT, c2QP.Q, c2QP.P)
+			eval.Decomposer.DecomposeAndSplit(levelQ, levelP, nbPi, i, cxInvNTT, c2QP.Q, c2QP.P)
 		}
 
 		for j := 0; j < BaseTwoDecompositionVectorSize[i]; j++ {
